@@ -7,3 +7,5 @@ import Blackbird.Props.C06
 #print axioms Blackbird.C06_loop_var_not_visible_after
 #print axioms Blackbird.C06_wrong_type_refused
 #print axioms Blackbird.C06_examples_of_wrong_type
+#print axioms Blackbird.C06_range_in_str_loop_refused
+#print axioms Blackbird.C06_bool_loop_value_beyond_one_refused
